@@ -152,7 +152,8 @@ def r13_7(ck: Check, rule: str = "R13.7") -> None:
             continue
         s = ck.summ(q, 0)
         # `assert` statements document invariants (an added assert that restates a guard is not a new rejection): raise statements only
-        got = sorted({exc_class(e) for e in s.raises() if not e.chain and e.kind == "raise"})
+        # (a bare `raise` in a handler passes on what it caught: no class of its own)
+        got = sorted({exc_class(e) for e in s.raises() if not e.chain and e.kind == "raise"} - {"reraise"})
         want = [c for c in want if c != "AssertionError"]
         if not want:
             continue
